@@ -564,7 +564,11 @@ func (s *Sim) checkDrained() {
 			if failed > 0 && failed == len(n.Allocs) {
 				detail = "orphans-of-failed-app"
 			}
-			s.violate("C03", "leak-node", detail, "after everything was released node %s still reports allocated %s (%d allocations)", nid, n.Alloc, len(n.Allocs))
+			owners := map[string]bool{}
+			for _, al := range n.Allocs {
+				owners[al.App] = true
+			}
+			s.violate("C03", "leak-node", detail, "after everything was released node %s still reports allocated %s (%d allocations of %v)", nid, n.Alloc, len(n.Allocs), sortedKeys(owners))
 		}
 		if !n.Occupied.IsZero() {
 			s.violate("C03", "leak-node-occupied", "", "after every foreign allocation was removed node %s still reports occupied %s", nid, n.Occupied)
